@@ -327,10 +327,19 @@ fn case_strategy() -> impl Strategy<Value = Case> {
                     }
                 }
             }
+            // a twin of one candidate that differs only in the direction of its parameters
+            if bias % 5 == 0 && !cands.is_empty() {
+                let mut twin = cands[(bias as usize / 5) % cands.len()].clone();
+                for (i, p) in twin.iter_mut().enumerate() {
+                    p.io = ((p.io as usize + 1 + (bias as usize + i) % 2) % 3) as u8;
+                }
+                cands.push(twin);
+            }
             // drop duplicate signatures (a redefinition is a different diagnostic)
-            let mut seen: Vec<Vec<(usize, u32)>> = Vec::new();
+            // (overloads that differ only in the direction of a parameter are distinct declarations)
+            let mut seen: Vec<Vec<(usize, u32, u8)>> = Vec::new();
             cands.retain(|c| {
-                let sig: Vec<(usize, u32)> = c.iter().map(|p| (p.scalar, p.dim)).collect();
+                let sig: Vec<(usize, u32, u8)> = c.iter().map(|p| (p.scalar, p.dim, p.io)).collect();
                 if seen.contains(&sig) {
                     false
                 } else {
